@@ -71,8 +71,11 @@ static bool g_default_mismatch = false;
 #define VH_DEFAULTS(R, CALL) if (base == 0) { ST::conversion_result r0, rd; R a = s.CALL(r0, 0); R b = s.CALL(rd); R c = s.CALL(0); R d = s.CALL(); \
         if (a != b || c != d || r0.ok() != rd.ok() || r0.full_match() != rd.full_match()) g_default_mismatch = true; }
 
+// a conversion_result that already carries the flags of an earlier successful parse: every to_*(result) call must overwrite them
+static ST::conversion_result used_result() { ST::conversion_result r; (void)ST::string("7").to_long(r, 10); return r; }
+
 template <class R, class F1, class F2> static std::string one_member(const char *name, F1 with_res, F2 without) {
-    ST::conversion_result r;
+    ST::conversion_result r = used_result();
     R v = with_res(r); R nv = without();
     std::string o = std::string(" ") + name + "=" + show_val(v) + "," + (r.ok() ? "1" : "0") + (r.full_match() ? "1" : "0") + "," + show_val(nv);
     return o;
@@ -221,7 +224,7 @@ static std::string exec_case(const Args &a) {
         std::string bytes = parse_bytes(a.get("in"));
         return guarded([&]() -> std::string {
             ST::string s = raw_string(bytes);
-            ST::conversion_result r;
+            ST::conversion_result r = used_result();
             bool v = s.to_bool(), vr = s.to_bool(r);
             return std::string("ok v=") + (v ? "1" : "0") + " r=" + (vr ? "1" : "0") + "," + (r.ok() ? "1" : "0") + (r.full_match() ? "1" : "0") +
                    " fb=" + hex_bytes(str_bytes(ST::string::from_bool(v)));
